@@ -247,9 +247,9 @@ def run(ctx):
 
 def run_(ctx):
     rng = gen.rng_for(ctx.seed, 'c05')
-    for k in range(60 if ctx.quick else 1500):
+    for k in range(ctx.n(60, 1500)):
         numpy_axes(ctx, rng, k)
-    for k in range(30 if ctx.quick else 600):
+    for k in range(ctx.n(30, 600)):
         segy_axes(ctx, rng, k)
     interval_sweep(ctx, rng)
 
